@@ -2,6 +2,7 @@
 Real code: GetDecodeTable<V>() for the three visitors (built by executing the real builder inside the executor), the
 real Matcher::Matches, the real Decode<V>, the real Interpreter::Run fetch/dispatch scaffold."""
 import re, random, os
+import json
 import z3
 from engine import build, kit, core
 from engine.kit import Ptr, bv, is_c
@@ -366,6 +367,34 @@ def run(tier, seed):
         got = dec(oc)
         if (m[0] if len(m) == 1 else (-1 if not m else -2)) != got or (got >= 0 and nx(got) != rows[got]['expanded']):
             bad += 1
+    # the 65536-entry table the interpreter really indexes (GetDecoderTable, built by the real code natively): entry o must be
+    # the row Decode selects for o. The solver obligations above reason about Decode and stub `decoders[o]` with it; this closes
+    # the stub by complete enumeration of the finite domain (the loop that fills the table cannot be unrolled symbolically).
+    drow = tw.fn('nm_decoders_row', ctypes.c_int, [ctypes.c_uint16])
+    wrong = []
+    if tw.fn('nm_decoders_size', ctypes.c_int, [])() != 0x10000:
+        wrong.append(('size', tw.fn('nm_decoders_size', ctypes.c_int, [])()))
+    else:
+        for oc in range(0x10000):
+            m = [r['i'] for r in rows if (oc & r['mask']) == r['expected'] and all((oc & mm) != uu for mm, uu in r['rejectors'])]
+            want = m[0] if len(m) == 1 else -1
+            got = drow(oc)
+            if got != want:
+                wrong.append((oc, want, got))
+    if wrong:
+        oc, want, got = wrong[0] if wrong[0][0] != 'size' else (0, 0, wrong[0][1])
+        path = os.path.join(core.OUT, 'replay', 'C02-DecoderTable.json')
+        os.makedirs(os.path.dirname(path), exist_ok=True)
+        with open(path, 'w') as f:
+            json.dump({'property': 'C02', 'obligation': 'DecoderTable[o] == Decode(o)', 'inputs': {'opcode': oc}, 'native_replay': {'reproduced': True, 'detail': {'mismatching opcodes': len(wrong), 'first': ['%#06x: Decode selects row %s (%s), Interpreter::decoders holds row %s (%s)' % (o_, w_, rows[w_]['name'] if w_ >= 0 else 'undefined', g_, rows[g_]['name'] if g_ >= 0 else ('undefined' if g_ == -1 else 'no table row')) for o_, w_, g_ in wrong[:8] if o_ != 'size']}}}, f, indent=1)
+        ck.violations.append(('DecoderTable[o] == Decode(o)', path))
+        ck.results.append(core.Result('DecoderTable[o] == Decode(o)', 'violation', inputs={'opcode': oc}, replay=path, replayed=True))
+        print('VIOLATION property=C02 replay=%s' % path, flush=True)
+        print('  Interpreter::decoders[%#06x] is not the form Decode selects (%d opcodes differ): the interpreter executes a different form than the disassembler/assembler/generator see' % (oc, len(wrong)), flush=True)
+    else:
+        ck.results.append(core.Result('DecoderTable[o] == Decode(o)', 'unsat', t=0.0))
+        ck.validated += 0x10000
+        ck.notes.append('Interpreter::decoders (GetDecoderTable, 65536 entries built by the real code) holds for every first word the row Decode selects: complete native enumeration, not a solver verdict')
     if bad:
         ck.engine_errors.append('table extracted in the executor disagrees with the native table on %d opcodes' % bad)
     else:
